@@ -183,7 +183,7 @@ def ntag_tamper(sx, product, plen, tlen, nak_as):
 # part 2: FeliCa Lite / Lite-S over the ideal cipher
 # ----------------------------------------------------------------------------
 from env.idealcipher import IdealCipher
-from env.tt3lite_sim import LiteSim, LiteClf, target as lite_target
+from env.tt3lite_sim import LiteSim, LiteClf, Replayer, target as lite_target
 
 Type3TagCommandError = nfc.tag.tt3.Type3TagCommandError
 
@@ -195,10 +195,18 @@ class FakeOS(object):
     def __init__(self, sx):
         self.sx = sx
         self.n = 0
+        self.out = []
 
     def urandom(self, n):
         self.n += 1
-        return self.sx.bytes("rc%d" % self.n, n)
+        r = self.sx.bytes("rc%d" % self.n, n)
+        for prev in self.out:
+            if len(prev) == n:
+                self.sx.assume(self.sx.neg(self.sx.eq(r, prev)),
+                               "a fresh random challenge differs from the "
+                               "previous ones (probability 2^-128 otherwise)")
+        self.out.append(r)
+        return r
 
 
 def ck_block(key):
@@ -505,6 +513,61 @@ def lites_write(sx, block, tamper_wcnt):
     return "written"
 
 
+def rc_written(cmd):
+    """the 16 data bytes of a Write Without Encryption to block 80h, or None"""
+    if len(cmd) == 32 and cmd[1] == 0x08 and cmd[13] == 1 and cmd[15] == 0x80:
+        return list(cmd[16:32])
+    return None
+
+
+def fresh_challenge(sx, pfx, fos, commands, k):
+    """the k-th authenticate() on a tag object consumed the k-th output of
+    os.urandom and wrote exactly that as RC (each half little endian)"""
+    sx.check(fos.n == k, pfx + ":authenticate-without-fresh-challenge")
+    written = [w for w in [rc_written(c) for c in commands] if w is not None]
+    if not written:
+        sx.check(False, pfx + ":authenticate-without-writing-RC")
+    sx.check(sx.eq(sx.mkbytes(written[-1], False),
+                   sx.mkbytes(ck_block(fos.out[k - 1]), False)),
+             pfx + ":RC-written-is-not-the-fresh-challenge")
+
+
+def lite_replay(sx, lite_s, read_block):
+    """history on ONE tag object: (1) authenticate(p) (and read_with_mac)
+    against the genuine tag holding the key of p, everything on the air is
+    recorded; (2) the tag is exchanged for a counterfeit that holds no key
+    and replays the recorded responses: authenticate(p) must be False and
+    no replayed data may be returned as authentic."""
+    pfx = "lites" if lite_s else "lite"
+    p = sx.bytes("p", 16)
+    content = {0x82: list(sx.bytes("tag.id", 16))}
+    if read_block is not None:
+        content[read_block] = list(sx.bytes("tag.blk", 16))
+    sim, tag = lite_tag(sx, lite_s, ck_block(p), content)
+    fos = nfc.tag.tt3_sony.os
+    if not sx.truth(sx.eq(tag.authenticate(p), True)):
+        sx.check(False, pfx + ":authenticate-false-with-tag-key")
+    fresh_challenge(sx, pfx, fos, [c for c, r in sim.history], 1)
+    if read_block is not None:
+        d1 = tag.read_with_mac(read_block)
+        if d1 is None:
+            sx.check(False, pfx + ":untouched-response-refused")
+    fake = Replayer(sim.history)
+    tag.clf.sim = fake
+    try:
+        r2 = tag.authenticate(p)
+    except Type3TagCommandError:
+        r2 = False          # the counterfeit fell silent
+    if not is_bool(r2):
+        sx.check(False, pfx + ":authenticate-returns-non-bool")
+    sx.check(sx.neg(r2), pfx + ":replayed-authentication-accepted")
+    sx.check(sx.eq(tag.is_authenticated, False),
+             pfx + ":is_authenticated-after-replayed-authentication")
+    fresh_challenge(sx, pfx, fos, fake.seen, 2)
+    sx.reach(pfx + ":replay-refused")
+    return [lite_s, r2]
+
+
 def lite_protect(sx, lite_s, plen, qlen, protect_from, pwtype):
     """protect(p) on a factory tag, then authenticate(q)"""
     pfx = "lites" if lite_s else "lite"
@@ -611,6 +674,11 @@ def partitions(tier):
             parts.append(dict(name="lites-write:%d:%d" % (block, t),
                               fn="lites_write",
                               params=dict(block=block, tamper_wcnt=t)))
+    for lite_s, blk in ([(0, 1), (1, None)] if quick else
+                        [(0, 1), (0, None), (1, None), (1, 3)]):
+        parts.append(dict(name="lite-replay:%d:%s" % (lite_s, blk),
+                          fn="lite_replay",
+                          params=dict(lite_s=lite_s, read_block=blk)))
     for lite_s in (0, 1):
         parts.append(dict(name="lite-ndef-tamper:%d" % lite_s,
                           fn="lite_ndef_tamper", params=dict(lite_s=lite_s)))
@@ -650,6 +718,7 @@ MUST_REACH = [
     "lite:protect-short-password-rejected",
     "lites:protected", "lites:second-accepted", "lites:second-refused",
     "lites:written", "lites:write-refused",
+    "lite:replay-refused", "lites:replay-refused",
 ]
 BOUNDS = {
     "quick": "NTAG210/212/213/215/216 and Ultralight EV1 MF0UL11/H11/21/H21: "
